@@ -16,7 +16,7 @@ RULE = (
     "and integer inputs, scalar or batched coordinates drawn from {integers in range, uniform in range, up to 2 "
     "cells outside}: compared with a NumPy corner-sum reference (lower index clipped to [0,n-2], unclipped "
     "weights), 1e-9 relative; integer coordinates must return the entries. (grid) LinspaceGrid/LogspaceGrid over "
-    "12 orders of magnitude of start/stop, n=2..200, values anywhere (linear) / inside the range (log), plus probes at relative distance 1e-6 and 3e-8 from nodes, scalar, "
+    "12 orders of magnitude of start/stop, n=2..200, values anywhere (linear) / inside the range (log), plus probes at relative distance 1e-6 and 3e-8 from nodes; for 2 linear-grid cases in 5 the values are whole numbers passed as int32/int64 arrays, scalar, "
     "vmapped and jitted: coordinate(node_i) = i for the first and the last nodes and for the stop bound itself (1e-9 abs), coordinates strictly increasing for values whose gap "
     "exceeds 1e-9 of the range (and never decreasing beyond 1e-12), and map_coordinates(nodes, coordinate(x)) = x "
     "(1e-9 relative to the range); all tolerances are widened by the floating-point resolution of the inputs, 16*eps*max(|start|,|stop|) in value units. Non-trivial: kernel: rank>=2 with a fractional coordinate and one outside the "
@@ -66,7 +66,8 @@ def case_grid(draw):
     us = [draw(st.integers(0, 10000)) / 10000.0 for _ in range(k)]
     outside = [draw(st.integers(-1000, 2000)) / 1000.0 for _ in range(3)]
     return {"kind": "grid", "log": log, "start": a, "stop": b, "n": n, "u": us, "outside": outside,
-            "mode": draw(st.sampled_from(["scalar", "vmap", "jit"]))}
+            "mode": draw(st.sampled_from(["scalar", "vmap", "jit"])),
+            "int_values": draw(st.sampled_from([None, None, None, "int32", "int64"]))}
 
 
 def strategy(tier):
@@ -115,6 +116,10 @@ def check_grid(case):
     from lcm.ndimage import map_coordinates
 
     a, b, n = case["start"], case["stop"], case["n"]
+    if case.get("int_values") and not case["log"] and b - a >= 8 and max(abs(a), abs(b)) < 2**30:
+        # integer-typed values go together with integer (Python int) bounds in half of the cases
+        if int(case["u"][0] * 10000) % 2 == 0:
+            a, b = int(np.floor(a)), int(np.ceil(b))
     cls = LogspaceGrid if case["log"] else LinspaceGrid
     g = call_lcm(cls, start=a, stop=b, n_points=n)
     nodes = np.asarray(call_lcm(g.to_jax), dtype=float)
@@ -133,6 +138,11 @@ def check_grid(case):
     xs = np.asarray(xs, dtype=float)
     if case["log"]:
         xs = np.clip(xs, nodes[0], nodes[-1])
+    int_dtype = None
+    if case.get("int_values") and not case["log"] and rng >= 8 and max(abs(a), abs(b)) < 2**30:
+        # the values are whole numbers supplied as an INTEGER-typed array
+        xs = np.unique(np.round(xs))
+        int_dtype = {"int32": np.int32, "int64": np.int64}[case["int_values"]]
 
     def coord(x):
         return g.get_coordinate(x)
@@ -142,13 +152,13 @@ def check_grid(case):
     node_vals = np.concatenate([nodes[node_idx], [float(b)]])
     node_exp = np.asarray(node_idx + [n - 1], dtype=float)
     if case["mode"] == "scalar":
-        cx = np.asarray([float(call_lcm(coord, jnp.asarray(x))) for x in xs])
+        cx = np.asarray([float(call_lcm(coord, jnp.asarray(x if int_dtype is None else int_dtype(x)))) for x in xs])
         cn = np.asarray([float(call_lcm(coord, jnp.asarray(x))) for x in node_vals])
     else:
         f = jax.vmap(coord)
         if case["mode"] == "jit":
             f = jax.jit(f)
-        cx = np.asarray(call_lcm(f, jnp.asarray(xs)))
+        cx = np.asarray(call_lcm(f, jnp.asarray(xs if int_dtype is None else xs.astype(int_dtype))), dtype=float)
         cn = np.asarray(call_lcm(f, jnp.asarray(node_vals)))
     msgs = []
     desc = f"{cls.__name__}(start={a!r}, stop={b!r}, n_points={n})"
